@@ -51,8 +51,8 @@ pub use protocol::Version;
 #[cfg(feature = "verif-hooks")]
 pub mod verif {
     pub use crate::generator::verif::{
-        dispatch_bytes, dispatch_float, dispatch_int, dispatch_memo_index, dispatch_string, set_aliases,
-        start, take,
+        begin, dispatch_bytes, dispatch_float, dispatch_int, dispatch_memo_index, dispatch_string,
+        emit_one, finish, memo_kind, push_kind, set_aliases, start, state, take, valid_opcodes,
     };
     pub use crate::generator::{EntropySource, GenerationSource};
 }
